@@ -347,7 +347,9 @@ def m_receiver_close(I, c, args, fr):
 
 @model('Receiver::is_closed', 'UnboundedReceiver::is_closed')
 def m_receiver_is_closed(I, c, args, fr):
-    return deref(args[0]).ch.rx_closed
+    # tokio docs: closed when all senders have been dropped or when `close` was called (queued messages may still be there)
+    ch = deref(args[0]).ch
+    return ch.rx_closed or ch.senders <= 0
 
 @model('Receiver::is_empty', 'UnboundedReceiver::is_empty')
 def m_receiver_is_empty(I, c, args, fr):
